@@ -62,7 +62,12 @@ def load_config_toml(
             f.write(_comment_out_toml(default_config))
         config_toml = dict()
 
-    config = _merge(default_config_toml, config_toml)
+    # Merge plain dicts: item assignment on tomlkit containers is not dict assignment (it enforces
+    # the document's layout: inline tables, tables defined in several fragments, ...)
+    config = _merge(
+        default_config_toml.unwrap(),
+        config_toml.unwrap() if hasattr(config_toml, "unwrap") else config_toml,
+    )
 
     return config
 
